@@ -311,7 +311,7 @@ def run(ck):
                       'the harness is deterministic: output is a function of run and invocation number; exit 127 and '
                       'OSError are excluded (C04, C13)']
     ck.exhaustive = True
-    n_scen = 10 if quick else 70
+    n_scen = 8 if quick else 70
     items, done, idx = [], 0, 0
     for name, data in c06.load_corpus(ck):
         scen = data['input']
